@@ -26,7 +26,7 @@ from pedal.sandbox.feedbacks import runtime_error, EXCEPTION_FF_MAP
 from pedal.sandbox.exceptions import SandboxHasNoFunction, SandboxHasNoVariable
 from pedal.sandbox.timeout import timeout, InterruptableThread
 from pedal.sandbox.timeout import _verif_sync
-from pedal.sandbox.result import SandboxResult
+from pedal.sandbox.result import SandboxResult, unwrap_value
 from pedal.sandbox.tracer import TRACER_STYLES
 
 
@@ -767,12 +767,20 @@ class Sandbox:
         """
         if isinstance(value, SandboxVariable):
             return value.name
-        if len(repr(value)) <= self.MAXIMUM_TEMPORARY_LENGTH:
+        # The result of an earlier call goes back in as the value itself, not
+        # as its proxy (the student's code would get a proxy of a proxy back)
+        value = unwrap_value(value)
+        try:
+            value_text = repr(value)
+        except Exception:
+            # The student's own __repr__ failed: then it cannot be pasted
+            value_text = None
+        if value_text is not None and len(value_text) <= self.MAXIMUM_TEMPORARY_LENGTH:
             # Only values whose repr is a Python literal can be passed as
             # source text (float('inf') prints as the undefined name inf).
             try:
-                ast.literal_eval(repr(value))
-                return repr(value)
+                ast.literal_eval(value_text)
+                return value_text
             except (ValueError, SyntaxError, MemoryError, RecursionError, TypeError):
                 pass
         key = '_temporary_{}_{}'.format(category, name)
